@@ -20,6 +20,7 @@ type ObStat struct {
 	BySolver int `json:"by_solver"`
 	Violated int `json:"violated"`
 	Unknown  int `json:"unknown"`
+	Skipped  int `json:"skipped_after_violation,omitempty"`
 }
 
 type Cex struct {
@@ -53,6 +54,9 @@ type Result struct {
 	Truncated    bool               `json:"truncated"`
 	Samples      []string           `json:"sample_obligations"`
 	ExitCodes    map[string]int     `json:"exit_codes,omitempty"`
+	CrossUnsat   int                `json:"normal_form_crosscheck_unsat"`
+	CrossUnknown int                `json:"normal_form_crosscheck_timeout"`
+	CrossSat     int                `json:"normal_form_crosscheck_disagree"`
 
 	varSeen  map[string]bool
 	vars     []*term.T
@@ -98,6 +102,9 @@ func (r *Result) ob(label string, auto bool) *ObStat {
 
 // assume adds c to the path condition; an infeasible assumption ends the path.
 func (e *Engine) assume(c *term.T) {
+	if !c.IsConst() {
+		c = term.RewriteCond(c)
+	}
 	if c.IsTrue() {
 		return
 	}
@@ -122,11 +129,19 @@ func (e *Engine) obligation(c *term.T, label string, auto bool) {
 	if e.spec != nil {
 		c = term.Implies(e.spec, c)
 	}
+	if !c.IsConst() {
+		c = term.RewriteCond(c)
+	}
 	if e.replaying() {
-		e.assertPC(c)
+		// already decided by the parent path under the same path condition
 		return
 	}
 	st := e.res.ob(label, auto)
+	if st.Violated >= 2 && !c.IsTrue() {
+		// this obligation already has counterexamples: do not spend solver time on more of the same
+		st.Skipped++
+		return
+	}
 	switch {
 	case c.IsTrue():
 		st.Trivial++
@@ -134,6 +149,7 @@ func (e *Engine) obligation(c *term.T, label string, auto bool) {
 	case term.ANFProve(c):
 		st.ByANF++
 		e.sample(label, c, "normaliser")
+		e.crossCheck(label, c)
 		return
 	case e.anfUnderPC(c):
 		st.ByANF++
@@ -163,6 +179,7 @@ func (e *Engine) obligation(c *term.T, label string, auto bool) {
 		e.sample(label, c, "solver")
 	case solver.Sat:
 		st.Violated++
+		m = e.minimizeInts(term.BNot(c), m)
 		e.res.Cex = append(e.res.Cex, Cex{Label: label, Model: m, Decisions: append([]uint64(nil), e.decisions...), Kind: "assert"})
 		if e.opt.StopAtFirst {
 			panic(pathEnd{"violation"})
@@ -178,6 +195,28 @@ func (e *Engine) obligation(c *term.T, label string, auto bool) {
 		st.Unknown++
 	}
 	e.assertPC(c)
+}
+
+// crossCheck sends the first few normal-form-proved obligations of every label
+// to the solver as well (raw, short timeout): a sat answer means the
+// normaliser is wrong and makes the run inconclusive.
+func (e *Engine) crossCheck(label string, c *term.T) {
+	if e.crossN[label] >= 2 {
+		return
+	}
+	e.crossN[label]++
+	e.S.SetTimeout(4000)
+	r, _ := e.S.CheckWith(term.BNot(c), nil)
+	e.S.SetTimeout(e.S.TimeoutMs)
+	switch r {
+	case solver.Unsat:
+		e.res.CrossUnsat++
+	case solver.Sat:
+		e.res.CrossSat++
+		e.res.Unsupported = append(e.res.Unsupported, "normal-form prover disagrees with the solver on: "+label)
+	default:
+		e.res.CrossUnknown++
+	}
 }
 
 // anfUnderPC proves an equality A == K from an assumed equality B == K on the
@@ -198,6 +237,49 @@ func (e *Engine) anfUnderPC(c *term.T) bool {
 		}
 	}
 	return false
+}
+
+// minimizeInts shrinks the integer-sorted inputs of a counterexample (lengths,
+// counts) one after the other by binary search with the solver, so that the
+// native replay gets the smallest failing sizes.
+func (e *Engine) minimizeInts(neg *term.T, m map[string]uint64) map[string]uint64 {
+	var ints []*term.T
+	for _, v := range e.res.vars {
+		if v.IsInt() {
+			ints = append(ints, v)
+		}
+	}
+	if len(ints) == 0 || len(ints) > 4 {
+		return m
+	}
+	e.S.Push()
+	e.S.Assert(neg)
+	for _, v := range ints {
+		cur := int64(m[v.Name])
+		if cur <= 0 {
+			e.S.Assert(term.Eq(v, term.IntConst(cur)))
+			continue
+		}
+		lo, hi := int64(0), cur
+		for lo < hi {
+			mid := lo + (hi-lo)/2
+			e.S.Push()
+			e.S.Assert(term.ILe(v, term.IntConst(mid)))
+			e.S.Assert(term.ILe(term.IntConst(0), v))
+			r := e.S.Check()
+			if r == solver.Sat {
+				m2 := e.S.Model(e.res.vars)
+				hi = int64(m2[v.Name])
+				m = m2
+			} else {
+				lo = mid + 1
+			}
+			e.S.Pop()
+		}
+		e.S.Assert(term.Eq(v, term.IntConst(hi)))
+	}
+	e.S.Pop()
+	return m
 }
 
 func (e *Engine) sample(label string, c *term.T, how string) {
@@ -221,6 +303,7 @@ func (e *Engine) Run(fn *ssa.Function, base Options) *Result {
 		base.MaxPaths = 100000
 	}
 	e.pending = [][]uint64{nil}
+	e.crossN = map[string]int{}
 	for len(e.pending) > 0 {
 		if e.res.Paths >= base.MaxPaths {
 			e.res.Truncated = true
@@ -228,6 +311,11 @@ func (e *Engine) Run(fn *ssa.Function, base Options) *Result {
 			break
 		}
 		if base.StopAtFirst && len(e.res.Cex) > 0 {
+			e.res.Truncated = true
+			break
+		}
+		if len(e.res.Cex) >= 12 {
+			// enough counterexamples to report; the run is a failure either way
 			e.res.Truncated = true
 			break
 		}
@@ -301,7 +389,8 @@ func (e *Engine) runPath(fn *ssa.Function, prefix []uint64, base Options) {
 		}
 		e.res.PathEnds[end]++
 		if e.dbg {
-			fmt.Fprintf(os.Stderr, "path %d ended: %s (decisions %d, steps %d, solver %.1fs)\n", e.res.Paths, end, len(e.decisions), e.steps, e.S.Stats.Seconds)
+			fmt.Fprintf(os.Stderr, "path %d ended: %s (decisions %d, steps %d, solver %.1fs) %v\n", e.res.Paths, end, len(e.decisions), e.steps, e.S.Stats.Seconds, e.trace)
+			e.trace = nil
 		}
 	}()
 	e.call(nil, fn.Pos(), fn, nil)
